@@ -86,7 +86,7 @@ void sk_dg_u64(sk_dg* h, uint64_t v) { sk_dg_add(h, &v, 8); }
 void sk_dg_str(sk_dg* h, const char* s) { sk_dg_add(h, s, strlen(s) + 1); }
 
 /* ---------------------------------------------------------------- result */
-void sk_violate(sk_result* r, const char* cls, const char* fmt, ...)
+__attribute__((no_sanitize("thread"))) void sk_violate(sk_result* r, const char* cls, const char* fmt, ...)
 {
 	va_list ap;
 	if (r->violated)
@@ -109,7 +109,7 @@ void sk_fault(sk_result* r, const char* fmt, ...)
 	va_end(ap);
 }
 
-void sk_text(sk_result* r, const char* fmt, ...)
+__attribute__((no_sanitize("thread"))) void sk_text(sk_result* r, const char* fmt, ...)
 {
 	va_list ap;
 	int n;
@@ -153,27 +153,39 @@ int sk_keep(const sk_mask* m, unsigned i)
 static struct { char name[48]; uint64_t v; } ctrs[MAXCTR];
 static int nctrs;
 
-void sk_count(const char* name, uint64_t add)
+/* no libc calls here: TSan intercepts strcmp/snprintf even from uninstrumented
+   code, and counters are bumped from every fiber */
+static int name_eq(const char* a, const char* b)
+{
+	while (*a && *a == *b)
+		++a, ++b;
+	return *a == *b;
+}
+
+__attribute__((no_sanitize("thread"))) void sk_count(const char* name, uint64_t add)
 {
 	int i;
 	for (i = 0; i < nctrs; ++i)
-		if (strcmp(ctrs[i].name, name) == 0)
+		if (name_eq(ctrs[i].name, name))
 		{
 			ctrs[i].v += add;
 			return;
 		}
 	if (nctrs < MAXCTR)
 	{
-		snprintf(ctrs[nctrs].name, sizeof(ctrs[nctrs].name), "%s", name);
+		size_t k = 0;
+		while (name[k] && k + 1 < sizeof(ctrs[nctrs].name))
+			ctrs[nctrs].name[k] = name[k], ++k;
+		ctrs[nctrs].name[k] = 0;
 		ctrs[nctrs++].v = add;
 	}
 }
 
-uint64_t sk_counter(const char* name)
+__attribute__((no_sanitize("thread"))) uint64_t sk_counter(const char* name)
 {
 	int i;
 	for (i = 0; i < nctrs; ++i)
-		if (strcmp(ctrs[i].name, name) == 0)
+		if (name_eq(ctrs[i].name, name))
 			return ctrs[i].v;
 	return 0;
 }
@@ -182,7 +194,7 @@ uint64_t sk_counter(const char* name)
 static uint64_t* sigtab;
 static size_t sigcap, sigcnt;
 
-int sk_sig_add(uint64_t sig)
+__attribute__((no_sanitize("thread"))) int sk_sig_add(uint64_t sig)
 {
 	size_t i;
 	if (sig == 0)
@@ -216,6 +228,7 @@ int sk_sig_add(uint64_t sig)
 
 /* ------------------------------------------------------------------ main */
 sk_opts sk_options;
+int sk_restart_requested;
 
 static uint64_t hash_str(const char* s)
 {
@@ -336,7 +349,9 @@ int sk_main(int argc, char** argv)
 		memset(&res, 0, sizeof(res));
 		res.digest = SK_DG_INIT;
 		res.want_text = want_text ? 2 : 0;
+		alarm(180);
 		sk_the_engine.run(one, mask, &res);
+		alarm(0);
 		if (want_text)
 		{
 			char* p = res.text;
@@ -385,6 +400,7 @@ int sk_main(int argc, char** argv)
 		uint64_t rs = sk_mix(base, idx);
 		if (status)
 			status[0] = idx + 1, status[1] = rs;
+		alarm(180); /* watchdog: a run that hangs is killed by SIGALRM and attributed to this index */
 		memset(&res, 0, offsetof(sk_result, text));
 		res.text[0] = 0, res.textlen = 0;
 		res.digest = SK_DG_INIT;
@@ -425,12 +441,18 @@ int sk_main(int argc, char** argv)
 			if (nviol >= 50)
 				break; /* enough to triage; driver reports all of them */
 		}
+		if (sk_restart_requested)
+		{
+			++idx;
+			break;
+		}
 		if (budget > 0 && (runs & 15) == 0 && now_s() - t0 > budget)
 		{
 			++idx;
 			break;
 		}
 	}
+	alarm(0);
 	if (status)
 		status[0] = 0;
 	if (dgf)
@@ -462,10 +484,18 @@ int sk_main(int argc, char** argv)
 		sk_the_engine.summary(stdout);
 	printf("}\n");
 	fflush(stdout);
-	return 0;
+	return sk_restart_requested ? 75 : 0;
 }
 
-int main(int argc, char** argv) { return sk_main(argc, argv); }
+int main(int argc, char** argv)
+{
+	int rc = sk_main(argc, argv);
+	fflush(stdout);
+	fflush(stderr);
+	/* skip sanitizer finalizers: race reports are already turned into
+	   violations by the engine and must not change the exit status */
+	_exit(rc);
+}
 
 /* sanitizer defaults: classifiable exit code, no leak checker (the simulated
    heap has its own live-set oracle) */
@@ -475,6 +505,9 @@ __attribute__((used, visibility("default"))) const char* __asan_default_options(
 }
 __attribute__((used, visibility("default"))) const char* __ubsan_default_options(void)
 {
+#ifdef SK_TSAN
+	return ""; /* the TSan runtime parses these too; exitcode is a common flag */
+#endif
 	return "halt_on_error=1:exitcode=77:print_stacktrace=1";
 }
 __attribute__((used, visibility("default"))) const char* __tsan_default_options(void)
